@@ -28,6 +28,17 @@ import (
 	"github.com/metal-toolbox/audito-maldito/internal/health"
 )
 
+// hangs counts scenarios in which Ingest did not return after the writer had closed the pipe; once that has been
+// seen a few times the (generous) wait is shortened: the behaviour is established, the run should not take an hour.
+var hangs atomic.Int64
+
+func hangWait() time.Duration {
+	if hangs.Load() > 8 {
+		return 150 * time.Millisecond
+	}
+	return 3 * time.Second
+}
+
 type Scenario struct {
 	Stream []string `json:"stream"`
 	Cuts   []int    `json:"cuts"`
@@ -84,6 +95,9 @@ func token(r *rand.Rand, sym string, delim byte) []byte {
 		}
 		return t
 	case "l":
+		if r.Intn(12) == 0 { // now and then longer than a pipe buffer and than the usual 64 KiB token limits
+			return pick(66000+r.Intn(80000), r.Intn(2) == 0)
+		}
 		return pick(4097+r.Intn(9000), r.Intn(2) == 0)
 	}
 	return []byte{delim}
@@ -225,7 +239,8 @@ func runOne(dir string, id int, sc Scenario, seed int64) Rec {
 	if !finished {
 		select {
 		case ingErr = <-done:
-		case <-time.After(3 * time.Second):
+		case <-time.After(hangWait()):
+			hangs.Add(1)
 			rec.Ret = "hang"
 			cancel()
 			return rec
